@@ -43,18 +43,18 @@ func approvals(rng *kernel.RNG, op string, target int64, nval int) []kernel.Step
 
 // GenWorkload produces a list of transaction steps and "block" cuts.
 func GenWorkload(rng *kernel.RNG, c GenCfg) []kernel.Step {
-	weights := map[string]int{"chain": 4, "import": 6, "cand": 3, "relayer": 2, "node": 2, "priv": 2, "noise": 2}
+	weights := map[string]int{"chain": 4, "import": 6, "cand": 3, "relayer": 2, "node": 2, "priv": 2, "noise": 2, "sig": 1, "burst": 1}
 	for k, v := range c.W {
 		weights[k] = v
 	}
 	// swarm: switch some families off entirely in some runs
-	for _, k := range []string{"chain", "import", "cand", "relayer", "node", "priv", "noise"} {
+	for _, k := range []string{"chain", "import", "cand", "relayer", "node", "priv", "noise", "sig", "burst"} {
 		if _, forced := c.W[k]; !forced && rng.Chance(0.15) {
 			weights[k] = 0
 		}
 	}
 	var fams []string
-	for _, k := range []string{"chain", "import", "cand", "relayer", "node", "priv", "noise"} {
+	for _, k := range []string{"chain", "import", "cand", "relayer", "node", "priv", "noise", "sig", "burst"} {
 		for i := 0; i < weights[k]; i++ {
 			fams = append(fams, k)
 		}
@@ -64,6 +64,38 @@ func GenWorkload(rng *kernel.RNG, c GenCfg) []kernel.Step {
 	}
 	var txs []kernel.Step
 	nv := int64(c.NVal)
+	owner := map[int64]int64{} // plan-side guess of who registered chain id (biases owner-only steps)
+	ownerOf := func(id int64) int64 {
+		if o, ok := owner[id]; ok && rng.Chance(0.85) {
+			return o
+		}
+		return int64(rng.Intn(nUsers))
+	}
+	regID := func() int64 { // a chain id that is probably registered
+		if len(owner) > 0 && rng.Chance(0.8) {
+			ids := make([]int64, 0, len(owner))
+			for id := int64(0); id < 4; id++ {
+				if _, ok := owner[id]; ok {
+					ids = append(ids, id)
+				}
+			}
+			return ids[rng.Intn(len(ids))]
+		}
+		return int64(rng.Intn(4))
+	}
+	// setup preamble: some chains registered and approved before the mixed workload starts
+	if rng.Chance(0.65) {
+		k := 1 + rng.Intn(3)
+		for id := int64(0); id < int64(k); id++ {
+			o := int64(rng.Intn(nUsers))
+			owner[id] = o
+			txs = append(txs, S("regchain", id, 0, o, 0))
+			perm := rng.Perm(c.NVal)
+			for i := 0; i < quorum(c.NVal); i++ {
+				txs = append(txs, S("approvechain", id, int64(perm[i])))
+			}
+		}
+	}
 	anyone := func() int64 { return int64(rng.Intn(c.NVal + nCands + nUsers)) }
 	for len(txs) < c.Steps {
 		switch fams[rng.Intn(len(fams))] {
@@ -71,27 +103,60 @@ func GenWorkload(rng *kernel.RNG, c GenCfg) []kernel.Step {
 			id := int64(rng.Intn(4))
 			switch rng.Intn(7) {
 			case 0, 1, 2:
-				txs = append(txs, S("regchain", id, 0, int64(rng.Intn(nUsers)), int64(rng.Intn(3))))
+				o := int64(rng.Intn(nUsers))
+				if _, ok := owner[id]; !ok {
+					owner[id] = o
+				}
+				router := int64(0)
+				if rng.Chance(0.1) {
+					router = int64([]int{2, 3, 6}[rng.Intn(3)])
+				}
+				txs = append(txs, S("regchain", id, router, o, int64(rng.Intn(3))))
 				if rng.Chance(0.8) {
 					txs = append(txs, approvals(rng, "approvechain", id, c.NVal)...)
 				}
 			case 3:
-				txs = append(txs, S("updchain", id, 0, int64(rng.Intn(nUsers)), int64(rng.Intn(3))))
+				txs = append(txs, S("updchain", id, 0, ownerOf(id), int64(rng.Intn(3))))
 				if rng.Chance(0.7) {
 					txs = append(txs, approvals(rng, "approveupd", id, c.NVal)...)
 				}
 			case 4:
-				txs = append(txs, S("quitchain", id, int64(rng.Intn(nUsers))))
+				txs = append(txs, S("quitchain", id, ownerOf(id)))
 				if rng.Chance(0.7) {
 					txs = append(txs, approvals(rng, "approvequit", id, c.NVal)...)
+					if rng.Chance(0.5) {
+						// re-register (often by somebody else) and run a stale approval round
+						o := int64(rng.Intn(nUsers))
+						owner[id] = o
+						txs = append(txs, S("regchain", id, 0, o, int64(rng.Intn(3))))
+						txs = append(txs, approvals(rng, "approvechain", id, c.NVal)...)
+						if rng.Chance(0.6) {
+							txs = append(txs, approvals(rng, "approvequit", id, c.NVal)...)
+						}
+					}
 				}
 			case 5:
 				txs = append(txs, approvals(rng, []string{"approvechain", "approveupd", "approvequit"}[rng.Intn(3)], id, c.NVal)...)
 			case 6:
 				txs = append(txs, S([]string{"approvechain", "approveupd", "approvequit"}[rng.Intn(3)], id, anyone()))
 			}
+		case "burst":
+			// k messages released inside one block (k cross-state leaves)
+			if len(owner) == 0 {
+				continue
+			}
+			k := 2 + rng.Intn(11)
+			txs = append(txs, S("nocut-begin"))
+			for j := 0; j < k; j++ {
+				src, dst, msg := regID(), regID(), int64(6+rng.Intn(40))
+				perm := rng.Perm(c.NVal)
+				for i := 0; i < quorum(c.NVal); i++ {
+					txs = append(txs, S("import", src, dst, msg, int64(perm[i]), 0))
+				}
+			}
+			txs = append(txs, S("nocut-end"))
 		case "import":
-			src, dst, msg := int64(rng.Intn(4)), int64(rng.Intn(4)), int64(rng.Intn(6))
+			src, dst, msg := regID(), regID(), int64(rng.Intn(6))
 			variant := int64(0)
 			if rng.Chance(0.1) {
 				variant = 1
@@ -162,6 +227,14 @@ func GenWorkload(rng *kernel.RNG, c GenCfg) []kernel.Step {
 			case 3:
 				txs = append(txs, S("whitechain", int64(rng.Intn(4)), mode, anyone()))
 			}
+		case "sig":
+			subj := int64(rng.Intn(5))
+			for _, st := range approvals(rng, "addsig", subj, c.NVal) {
+				txs = append(txs, st)
+			}
+			if rng.Chance(0.3) {
+				txs = append(txs, S("addsig", subj, anyone()))
+			}
 		case "noise":
 			txs = append(txs, S("regcand", anyone(), anyone()))
 		}
@@ -173,8 +246,22 @@ func GenWorkload(rng *kernel.RNG, c GenCfg) []kernel.Step {
 	}
 	var out []kernel.Step
 	left := 1 + rng.Intn(maxb)
+	nocut := false
 	for _, t := range txs {
+		if t.Op == "nocut-begin" || t.Op == "nocut-end" {
+			nocut = t.Op == "nocut-begin"
+			if nocut && len(out) > 0 && out[len(out)-1].Op != "block" {
+				out = append(out, S("block", int64(rng.Intn(1000))))
+			}
+			if !nocut {
+				left = 1
+			}
+			continue
+		}
 		out = append(out, t)
+		if nocut {
+			continue
+		}
 		left--
 		if left == 0 {
 			out = append(out, S("block", int64(rng.Intn(1000))))
